@@ -316,3 +316,126 @@ def mask_and_map(ex, uni):
         ex.prove(bool(ok), 'voxel_map-setter:bins==max+1,mask==(map>-1)')
     ex.cover('masks-enumerated')
     ex.sample({'masks': 16, 'maps': 81})
+
+
+# ------------------------------------------------------------------------------------------- straight rays: chord per cell
+class _LinComp:
+    """direction component of a straight ray start -> end: component * t_it = V * (it + 1/2) / n (linear in the ray's end
+    points; that t_it is the documented mid-point is an obligation of its own)"""
+    def __init__(self, V, nn, log):
+        self.V, self.nn, self.log = V, nn, log
+
+    def __mul__(self, t):
+        it = len(self.log)
+        self.log.append(t)
+        return self.V * ((2 * it + 1) / core.CR(2 * self.nn)) if core.CUR.sym else self.V * ((it + 0.5) / self.nn)
+    __rmul__ = __mul__
+
+
+class _LinV:
+    def __init__(self, L, V, nn):
+        self._l, self.V, self.nn = L, V, nn
+        self.logs = [[], [], []]
+
+    def get_length(self):
+        return self._l
+
+    def normalise(self):
+        return rs_model.Vector3D(*[_LinComp(self.V[k], self.nn, self.logs[k]) for k in range(3)])
+
+
+class _IdMap:
+    """one source per cell (the identity voxel map of a grid without mask)"""
+    def __init__(self, shape):
+        self.shape = shape
+
+    def __getitem__(self, idx):
+        a, b, c = (int(i) for i in idx)
+        return (a * self.shape[1] + b) * self.shape[2] + c
+
+
+@harness('C10', name='chord_per_cell', universe=_universe,
+         tiers={'quick': [{'n': 2, 'shape': (2, 1, 1)}, {'n': 3, 'shape': (2, 2, 1)}, {'n': 3, 'shape': (3, 1, 1)}],
+                'thorough': [{'n': n, 'shape': sh} for sh, ns in (((2, 1, 1), (2, 3, 4, 5, 6)), ((3, 1, 1), (2, 3, 4, 5, 6)), ((2, 2, 1), (2, 3, 4)),
+                                                                  ((1, 2, 2), (2, 3)), ((2, 2, 2), (2, 3)), ((3, 2, 1), (2, 3))) for n in ns]},
+         max_paths=200000, timeout_ms=60000,
+         functions=[EM + '.CartesianRayTransferIntegrator.integrate'], cover=['integrated'],
+         bounds={'samples': 'number of samples n concrete per job (min_samples = n, int(length / step) <= n)',
+                 'grid': 'cells per axis concrete per job, cell sizes 0.5 x 1 x 2, one source per cell',
+                 'ray': 'straight segment between two symbolic points strictly inside the grid box (any direction, any length)'},
+         stubs=['raysect Point3D / Vector3D: the start -> end vector is V, its normalised components times t_it are V (it + 1/2) / n',
+                'exact chord: length fraction of the parameter interval on which the point lies in the cell (intersection of the slabs)'],
+         outside=['cylindrical grids (curved cells: the exact chord needs square roots)', 'floating-point rounding', 'more samples than the bound'])
+def chord_per_cell(ex, uni, n, shape):
+    steps = (0.5, 1.0, 2.0)
+    mod = uni.load(EM)
+    K = mod.CartesianRayTransferEmitter
+    mat = K.__new__(K)
+    mat._grid_shape, mat._grid_steps = shape, steps
+    mat._dx, mat._dy, mat._dz = steps
+    mat.voxel_map_mv = _IdMap(shape)
+    ncell = shape[0] * shape[1] * shape[2]
+    step = ex.real('step', pos=True)
+    L = ex.real('length', pos=True)
+    ex.assume(L >= 0.1 * step, 'rays shorter than a tenth of a step are skipped (checked in accumulation)')
+    ex.assume(L < step * (n + 1), 'int(length / step) <= n, so that n = min_samples samples are taken')
+    integ = mod.CartesianRayTransferIntegrator(step, n)
+    S = [ex.real('s' + c) for c in 'xyz']
+    E = [ex.real('e' + c) for c in 'xyz']
+    for k in range(3):
+        for p in (S, E):
+            ex.assume(p[k] > 0)
+            ex.assume(p[k] < shape[k] * steps[k])
+    V = [E[k] - S[k] for k in range(3)]
+    for k in range(3):
+        if shape[k] == 1:
+            continue
+    lv = _LinV(L, V, n)
+    start = HP(S[0], S[1], S[2], lv)
+    sp = uni.rs.Spectrum(1.0, 2.0, ncell)
+    for i in range(ncell):
+        sp.samples[i] = 0.0
+    integ.integrate(sp, None, None, None, mat, HPoint(start), HPoint(start), 'w2p', 'p2w')
+    ex.cover('integrated')
+    dt = L / n
+    ex.prove(all(len(lg) == n for lg in lv.logs), 'n==max(min_samples,int(length/step))-samples')
+    ex.prove(ex.all([ex.eq(lg[it], (it + 0.5) * dt) for lg in lv.logs for it in range(len(lg))]), 'samples-taken-at-mid-points-(it+1/2)*length/n')
+    # exact chord fraction per cell: the parameter interval (as a fraction of the segment) inside each slab, intersected
+    lam = {}
+    for ia in range(shape[0]):
+        for ib in range(shape[1]):
+            for ic in range(shape[2]):
+                lo_, hi_ = 0, 1
+                empty = False
+                for k, i in enumerate((ia, ib, ic)):
+                    if shape[k] == 1:
+                        continue          # both end points are inside the only slab of this axis
+                    a, b = i * steps[k], (i + 1) * steps[k]
+                    v = V[k]
+                    if v > 0:
+                        l_, h_ = (a - S[k]) / v, (b - S[k]) / v
+                    elif v < 0:
+                        l_, h_ = (b - S[k]) / v, (a - S[k]) / v
+                    else:
+                        if bool(ex.all([ex.le(a, S[k]), ex.lt(S[k], b)])):
+                            continue
+                        empty = True
+                        break
+                    lo_ = ex.ite(l_ > lo_, l_, lo_)
+                    hi_ = ex.ite(h_ < hi_, h_, hi_)
+                if empty:
+                    lam[(ia, ib, ic)] = (0, True)
+                else:
+                    d = hi_ - lo_
+                    lam[(ia, ib, ic)] = (ex.ite(d > 0, d, 0), d < 0)
+    tot = 0
+    for (ia, ib, ic), (lm, missed) in lam.items():
+        src = (ia * shape[1] + ib) * shape[2] + ic
+        entry = sp.samples[src]
+        chord = lm * L
+        tot = tot + entry
+        ex.prove(ex.all([ex.le(entry - chord, 2 * dt), ex.le(chord - entry, 2 * dt)]), 'cell-entry-within-two-steps-of-the-exact-chord-in-the-cell')
+        # (a cell that the segment only touches in one point may hold a sample lying exactly on the shared face)
+        ex.prove(ex.implies(missed, ex.eq(entry, 0)), 'cell-missed-by-the-ray-receives-nothing')
+    ex.prove(ex.eq(tot, L), 'entries-sum-to-the-chord-length-inside-the-grid')
+    ex.sample({'n': n, 'shape': list(shape)})
